@@ -409,3 +409,97 @@ Example C17_ex_digits : Forall (is_digit 16) [55; 102] /\ stops 16 [122] /\ horn
 Proof. repeat split; repeat constructor; vm_compute; intuition discriminate. Qed.
 Example C17_ex_safe : ini_safe t_text = true /\ key_safe [45; 115] = true /\ sec_safe [112; 114; 101; 58; 105; 110] = true.
 Proof. repeat split; reflexivity. Qed.
+
+(* ===== tie T1: the model computes what the definitions GENERATED from /repo/src/sc_options.c compute ======================== *)
+(* Gen/OptionsC17.v is regenerated from the working tree on every run (tools/c2g/groups_C17.py); an edit of the rules in
+   sc_options.c changes a generated definition and the statements below stop checking. *)
+From ScV Require Import Base.CInt Gen.OptionsC17 C17.OptionsModel C17.GetoptModel C17.OptionsGen.
+Local Open Scope Z_scope.
+
+
+(* sc_iniparser_getint behind the lookup: the generated code returns the model's clamped value and stores the model's error flag, for every value string *)
+Theorem C17_gen_ini_getint : forall v p old s, p <> 0 ->
+  let '(l, e) := c_strtol 0 v in
+  ini_getint p l e old s = (fst (ini_int v), b2z (snd (ini_int v))) /\ fst (ini_getint 0 l e old s) = fst (ini_int v) /\ snd (ini_getint 0 l e old s) = old.
+Proof. exact gen_ini_getint. Qed.
+Print Assumptions C17_gen_ini_getint.
+
+(* sc_iniparser_getsizet: negative -> 0 with the error flag, otherwise the value and the ERANGE flag *)
+Theorem C17_gen_ini_getsizet : forall v p old s, p <> 0 ->
+  let '(l, e) := c_strtol 0 v in l <= LONG_MAX ->
+  ini_getsizet p l e old s = (fst (ini_sizet v), b2z (snd (ini_sizet v))) /\ fst (ini_getsizet 0 l e old s) = fst (ini_sizet v) /\ snd (ini_getsizet 0 l e old s) = old.
+Proof. exact gen_ini_getsizet. Qed.
+Print Assumptions C17_gen_ini_getsizet.
+
+(* the repaired double rule `errno == ERANGE && (dbl == 0. || dbl == HUGE_VAL || dbl == -HUGE_VAL)` (HUGE_VAL symbolic) = the model's dbl_error on the bit pattern *)
+Theorem C17_gen_double_rule : forall x (e : bool) dv H, (dv =? 0) = dbl_is_zero x -> ((dv =? H) || (dv =? - H)) = dbl_is_inf x ->
+  parse_double_error dv (if e then ERANGE else 0) H = dbl_error x e.
+Proof. exact gen_double_rule. Qed.
+Print Assumptions C17_gen_double_rule.
+
+(* sc_iniparser_getdouble stores exactly that rule through iserror and returns the converted value *)
+Theorem C17_gen_ini_getdouble : forall x (e : bool) dv H p old s, p <> 0 ->
+  (dv =? 0) = dbl_is_zero x -> ((dv =? H) || (dv =? - H)) = dbl_is_inf x ->
+  ini_getdouble p dv (if e then ERANGE else 0) H old s = (dv, b2z (dbl_error x e)) /\ ini_getdouble 0 dv (if e then ERANGE else 0) H old s = (dv, old).
+Proof. exact gen_ini_getdouble. Qed.
+Print Assumptions C17_gen_ini_getdouble.
+
+(* command line, int: the error test of the model's apply_item, literally; the stored value *)
+Theorem C17_gen_parse_int : forall l e, parse_int_error l e = ((l <? INT_MIN) || (l >? INT_MAX) || (e =? ERANGE)) /\
+  (INT_MIN <= l <= INT_MAX -> parse_int_value l = l).
+Proof. exact gen_parse_int. Qed.
+Print Assumptions C17_gen_parse_int.
+
+(* command line, size_t *)
+Theorem C17_gen_parse_sizet : forall l e, parse_sizet_error l e = ((l <? 0) || (e =? ERANGE)) /\ (0 <= l <= LONG_MAX -> parse_sizet_value l = l).
+Proof. exact gen_parse_sizet. Qed.
+Print Assumptions C17_gen_parse_sizet.
+
+(* a switch counts its occurrences *)
+Theorem C17_gen_parse_switch : forall x, INT_MIN <= x < INT_MAX -> parse_switch x = x + 1.
+Proof. exact gen_parse_switch. Qed.
+Print Assumptions C17_gen_parse_switch.
+
+(* the two character sets of the boolean spellings *)
+Theorem C17_gen_bool_sets : parse_bool_set1 = s_yes /\ parse_bool_set2 = s_no.
+Proof. exact gen_bool_sets. Qed.
+Print Assumptions C17_gen_bool_sets.
+
+(* command line, bool: no argument -> 1; first character in "1tTyY" -> 1, in "0fFnN" -> 0, otherwise the processing ends with -1 *)
+Theorem C17_gen_parse_bool : forall a p n1 n2 old rv, p <> 0 -> (0 <? n1) = first_in s_yes a -> (0 <? n2) = first_in s_no a ->
+  parse_bool p n1 n2 old rv = (if ini_boolean a =? -1 then (old, -1) else (ini_boolean a, rv)) /\
+  parse_bool 0 n1 n2 old rv = (1, rv).
+Proof. exact gen_parse_bool. Qed.
+Print Assumptions C17_gen_parse_bool.
+
+(* `optind = 0` is the model's g_reset; the option string starts empty *)
+Theorem C17_gen_getopt_reset : forall g, g_optind (g_reset g) = parse_optind_reset /\ parse_optstring_init = 0.
+Proof. exact gen_getopt_reset. Qed.
+Print Assumptions C17_gen_getopt_reset.
+
+(* a name with a colon carries its own section: no "Options:" in front *)
+Theorem C17_gen_load_has_colon : forall n p, (p =? 0) = negb (has_colon n) ->
+  load_has_colon p = has_colon n /\ long_key n = (if load_has_colon p then n else s_Options ++ cCOLON :: n).
+Proof. exact gen_load_has_colon. Qed.
+Print Assumptions C17_gen_load_has_colon.
+
+(* sc_options_save writes a section heading exactly when there is none yet or the prefix differs (symbolic strncmp) *)
+Theorem C17_gen_save_heading : forall p (last : option str) tp lp n1 n2 cmp, tp <> 0 ->
+  (lp =? 0) = (match last with None => true | Some _ => false end) ->
+  (forall q, last = Some q -> ((n1 =? n2) && (cmp =? 0)) = str_eqb p q) ->
+  save_heading tp lp n1 n2 cmp = match last with Some q => negb (str_eqb p q) | None => true end /\
+  save_heading_keep tp n1 = (tp, n1).
+Proof. exact gen_save_heading. Qed.
+Print Assumptions C17_gen_save_heading.
+
+(* base name / section prefix / prefix length as sc_options_save determines them from strrchr (opt_name, ':') *)
+Theorem C17_gen_save_prefix_base : forall name dflt sl colon tp tn sl2, 0 <= colon - name < 2 ^ 62 ->
+  OptionsC17.save_prefix_base name dflt sl colon tp tn sl2 =
+  if name =? 0 then (0, dflt, sl2) else if colon =? 0 then (name, dflt, sl) else (colon + 1, name, colon - name).
+Proof. exact gen_save_prefix_base. Qed.
+Print Assumptions C17_gen_save_prefix_base.
+
+(* a switch value <= 1 is written as true / false *)
+Theorem C17_gen_save_switch : forall b, save_switch_boolean b = (b <=? 1).
+Proof. exact gen_save_switch. Qed.
+Print Assumptions C17_gen_save_switch.
